@@ -491,7 +491,11 @@ extern size_t __sanitizer_get_allocated_size(const volatile void *p) __attribute
 static void mon_c14(ctx *c, int final, const vd_result *res)
 {
     int level = (int)vh_below(c->r, 3);
-    double start = VH_PICK(c->r, ((double[]){ 0.0, 0.0, 1.5, 12.345, 59.99, 7265.337, 20000.0, 86400.25, 1e6, -3.25 }));
+    double start = VH_PICK(c->r, ((double[]){ 0.0, 0.0, 1.5, 12.345, 59.99, 7265.337, 20000.0, 86400.25, 1e6, -3.25, -0.25, -0.004, 0.9996, -1.0, 4294967.5 }));
+    /* a third of the offsets are drawn: small ones of either sign (so that start, start + word begin, ... fall on both sides of
+       0 and of +-1) and large ones of either sign */
+    if (vh_chance(c->r, 0.35)) start = vh_chance(c->r, 0.7) ? (vh_unit(c->r) * 6.0 - 3.0) : (vh_unit(c->r) - 0.5) * 2e5;
+    vh_count(start < 0 ? "json_negative_start_offsets" : "json_nonnegative_start_offsets", 1);
     const char *js; vj_val *root; const char *err = NULL; size_t len; logmath_t *lm = decoder_logmath(c->d);
     const char *fin = final ? "final" : "partial"; const vj_val *w;
     vh_ctx("decoder_result_json");
@@ -636,7 +640,7 @@ static void run(long i, vh_rng *r)
     if (lang == VD_EN && vh_chance(r, 0.08)) c.cfg.samprate = 8000;
     if (vh_chance(r, 0.1)) c.cfg.cmn = VH_PICK(r, ((const char *[]){ "batch", "none" }));
     if ((MON == M_C14 || MON == M_C03) && vh_chance(r, 0.15)) c.cfg.frate = VH_PICK(r, ((int[]){ 50, 200, 90, 60, 125, 150, 70 }));
-    if ((MON == M_C01 || MON == M_C03) && vh_chance(r, 0.1)) { c.cfg.skip_tmat = 1; vh_count("scenarios_with_skip_transitions", 1); }   /* Bakis topology: states can be skipped */
+    if ((MON == M_C01 || MON == M_C03) && vh_chance(r, 0.1)) { c.cfg.skip_tmat = vh_chance(r, 0.5) ? 2 : 1; vh_count("scenarios_with_skip_transitions", 1); }   /* Bakis topology: states can be skipped */
     c.frate = c.cfg.frate; c.r = r;
     c.d = vd_decoder(&c.cfg);
     if (!c.d) { vh_inconc("decoder_init failed"); return; }
